@@ -58,8 +58,9 @@ if not skip_confirm:
         shutil.copy(os.path.join(OUT, 'demo.rs'), os.path.join(WT, demo_rel))
     demo_cmd = meta['demo_cmd']
     demo_cmd = re.sub(r'CARGO_TARGET_DIR=\S+\s*', '', demo_cmd)
+    demo_cmd = re.split(r'\s{2,}\(|\s+#', demo_cmd)[0]   # agents sometimes append prose
     rc1, out1 = sh(demo_cmd + ' 2>&1 | tail -40', cwd=WT, env=env)
-    failed_with = ('FAILED' in out1 or 'panicked' in out1 or 'test result: FAILED' in out1) and 'error[' not in out1
+    failed_with = ('FAILED' in out1 or 'panicked' in out1 or 'SIGABRT' in out1 or 'SIGSEGV' in out1) and 'error[' not in out1
     result['demo_with_patch'] = 'fails' if failed_with else 'DOES NOT FAIL'
     # without the patch
     sh('git apply -R --whitespace=nowarn %s' % patch, cwd=WT)
